@@ -7,6 +7,7 @@ import itertools
 import math
 
 import common
+import impl_model as im
 from gen import structures as gs
 from props import sdm_common as sc
 
@@ -142,6 +143,38 @@ def classify_missing(ctx, ob, G, atoms, ops, mi, n, k, d):
     return None
 
 
+def regrow(ctx, st):
+    """grow() after an edit on the same object gives what a fresh object gives for the edited file (no state of an earlier grow() survives)"""
+    import contextlib, io
+    from shelxfile.shelx.shelx import Shelxfile
+    text = gs.to_text(st)
+    shx = Shelxfile()
+    key = lambda atoms: sorted((a.name.split('>>')[0], round(a.x, 5), round(a.y, 5), round(a.z, 5), a.part.n) for a in atoms)
+    with contextlib.redirect_stdout(io.StringIO()):
+        shx.read_string(text)
+        first = shx.grow()
+        again = shx.grow()
+    if key(first) != key(again):
+        common.add_violation(ctx, 'a second grow() on the same object gives a different result', {'text': text}, len(first), len(again))
+        return 1
+    real = [a for a in shx.atoms.all_atoms if not a.qpeak]
+    if len(real) < 2:
+        return 1
+    victim = ctx.rng.choice(real)
+    vname = victim.name
+    with contextlib.redirect_stdout(io.StringIO()):
+        victim.delete()
+        edited = shx.grow()
+        fresh = Shelxfile()
+        fresh.read_string(im.write_text(shx))
+        ref = fresh.grow()
+    if key(edited) != key(ref):
+        extra = [x for x in key(edited) if x not in key(ref)]
+        common.add_violation(ctx, 'grow() after deleting an atom differs from grow() of a fresh object reading the edited file',
+                             {'text': text, 'deleted': vname}, {'atoms': len(ref)}, {'atoms': len(edited), 'not_in_reference': extra[:4]})
+    return 2
+
+
 def run(ctx):
     common.check_obligations(ctx, THEOREMS)
     rng = ctx.rng
@@ -158,6 +191,8 @@ def run(ctx):
             common.add_violation(ctx, 'calc_sdm / packer raised on a valid structure', {'name': st['name'], 'text': gs.to_text(st)}, 'no exception', repr(ex))
             continue
         ev += oracle(ctx, st, ob, with_q)
+        if k % 3 == 0:
+            ev += regrow(ctx, st)
         defs.append(sc.coq_defs(ob, k))
         t = sc.coq_checks(ob, k, with_q)
         terms += t[2:]
